@@ -53,6 +53,15 @@ def read_targets_through_filter():
                 stores = re.findall(r"ecb_read_filter\(tmp_\d+\$, ([^\\]*?)\)\s*(?:\\|$)", line)
                 empty = [t for t in stores if re.search(r"\(\s*[+\-*/]?\s*\)|^arr_\w+\$?$", t)]
                 res.append(ob("read-filter/calls in the subscripts of READ targets, line %s,init=%d" % (num, filt), sorted(got) == sorted(names) and got[-1:] == names[-1:] and not empty, names, got if not empty else "subscript lost: %s" % empty, line))
+        # each slot of the READ list feeds the target that stood in that slot: the k-th temporary goes to the k-th numeric target
+        for srcline, want in {"READ A(1),B": [("tmp_1$", "arr_A(1.0)"), ("tmp_2$", "B")], "READ A(1),B,A": [("tmp_1$", "arr_A(1.0)"), ("tmp_2$", "B"), ("tmp_3$", "A")],
+                              "READ B,A(1),C$,A": [("tmp_1$", "B"), ("tmp_2$", "arr_A(1.0)"), ("tmp_3$", "A")], "READ Z(2,1),Z,Y(Z)": [("tmp_1$", "arr_Z(2.0, 1.0)"), ("tmp_2$", "Z"), ("tmp_3$", "arr_Y(Z)")]}.items():
+            text = convert("10 DATA 1,,3\n20 %s\n" % srcline, add_standard_prefix=False)
+            line = next((l for l in text.split("\n") if l.startswith("20 ")), "")
+            slots = [s.strip() for s in line[len("20 READ "):].split(" \\ ")[0].split(",")]
+            pairs = re.findall(r"ecb_read_filter\((tmp_\d+\$), (.*?)\)(?: \\|$)", line)
+            tmps_in_slots = [s for s in slots if s.startswith("tmp_")]
+            res.append(ob("read-filter/slot k feeds target k/%s" % srcline, pairs == want and tmps_in_slots == [w[0] for w in want], want, dict(slots=slots, filters=pairs), line))
         return res
     return guarded("read-filter", run)
 
@@ -65,8 +74,10 @@ def call_order_through_convert():
         from coco.b09.compiler import convert
         res = []
         fns = {"BUTTON(1)": ["ecb_button"], "JOYSTK(0)": ["ecb_joystk"], "JOYSTK(1)": ["ecb_joystk"], "INT(A)": ["ecb_int"], "VAL(A$)": ["ecb_val"], "POINT(1,2)": ["ecb_point"], "INSTR(1,A$,B$)": ["ecb_instr"],
-               "LEN(STR$(A))": ["ecb_str"], "ASC(INKEY$)": ["inkey"], "LEN(HEX$(3))": ["ecb_hex"], "INT(VAL(A$))": ["ecb_val", "ecb_int"], "BUTTON(JOYSTK(0))": ["ecb_joystk", "ecb_button"]}
-        frames = {"sum": "X=%s+%s", "PRINT items": "PRINT %s;%s", "comparison": "IF %s>%s THEN 10", "arguments": "SOUND %s,%s", "subscripts": "Q(%s,%s)=1"}
+               "LEN(STR$(A))": ["ecb_str"], "ASC(INKEY$)": ["inkey"], "LEN(HEX$(3))": ["ecb_hex"], "INT(VAL(A$))": ["ecb_val", "ecb_int"], "BUTTON(JOYSTK(0))": ["ecb_joystk", "ecb_button"],
+               "VAL(STR$(X))": ["ecb_str", "ecb_val"], "INSTR(1,HEX$(X),STR$(Y))": ["ecb_hex", "ecb_str", "ecb_instr"], "VAL(STRING$(2,A$))": ["ecb_string", "ecb_val"], "INT(LEN(STR$(INT(A))))": ["ecb_int", "ecb_str", "ecb_int"]}
+        frames = {"sum": "X=%s+%s", "PRINT items": "PRINT %s;%s", "comparison": "IF %s>%s THEN 10", "arguments": "SOUND %s,%s", "subscripts": "Q(%s,%s)=1", "ON selector": "ON %s+%s GOTO 10,10", "ON GOSUB selector": "ON %s*%s GOSUB 10", "FOR bounds": "FOR I=%s TO %s:NEXT",
+                  "string function arguments": "A$=LEFT$(B$,%s)+CHR$(%s)"}
         for fname, frame in frames.items():
             bad, n = [], 0
             for f, fc in fns.items():
@@ -75,7 +86,7 @@ def call_order_through_convert():
                     src = "10 " + frame % (f, g)
                     text = convert(src + "\n", add_standard_prefix=False)
                     line = next(l for l in text.split("\n") if l.startswith("10 "))
-                    got = [c for c in re.findall(r"(?i)run (\w+)\(", re.sub(r'"[^"]*"', '""', line)) if c in ("ecb_button", "ecb_joystk", "ecb_int", "ecb_val", "ecb_point", "ecb_instr", "inkey", "ecb_hex") or (c == "ecb_str" and "STR$" in src)]
+                    got = [c for c in re.findall(r"(?i)run (\w+)\(", re.sub(r'"[^"]*"', '""', line)) if c in ("ecb_button", "ecb_joystk", "ecb_int", "ecb_val", "ecb_point", "ecb_instr", "inkey", "ecb_hex", "ecb_string") or (c == "ecb_str" and "STR$" in src)]
                     want = fc + gc
                     if fname == "PRINT items":      # numeric print items are formatted by ecb_str calls of their own: compare the others
                         got = [c for c in got if c != "ecb_str"]
@@ -236,6 +247,9 @@ def patcher_steps():
     out += read_targets_through_filter()
     from tx.p_c09 import temporaries_are_generated_names
     out += share("destinations/", temporaries_are_generated_names())
+    # whether a print item goes through the number formatter (one more call, made right after the item's own) follows from its kind
+    from tx.p_c14 import rule_kinds
+    out += share("kind/", rule_kinds())
     return out
 
 
